@@ -233,6 +233,34 @@ def sims_reject(block, with_compiled):
     return bad
 
 
+def net_connections_wrong(block):
+    """None when block.net_connections() is exactly: src[w] = the net driving w; dst[w] = the nets reading w, each
+    listed ONCE however often w occurs among its arguments (what the iterator's readiness count relies on)"""
+    try:
+        src, dst = block.net_connections()
+    except Exception as e:
+        return 'raised %r' % e
+    want = {}
+    for n in block.logic:
+        seen = []
+        for a in n.args:
+            if not any(a is x for x in seen):
+                seen.append(a)
+                want.setdefault(a, []).append(n)
+    for w, nets in want.items():
+        got = dst.get(w, [])
+        if len(got) != len(nets) or any(sum(1 for g in got if g is n) != 1 for n in nets):
+            return 'wire %s (read by %d nets) has %d sink entries' % (w.name, len(nets), len(got))
+    for w, got in dst.items():
+        if w not in want and got:
+            return 'wire %s has sink entries but no net reads it' % w.name
+    for n in block.logic:
+        for dd in n.dests:
+            if src.get(dd) is not n:
+                return 'source of %s is not its driving net' % dd.name
+    return None
+
+
 def with_iter_seed(block, seed):
     """iterate the block under the hook; returns (order, choices) or raises"""
     rec = []
@@ -527,6 +555,43 @@ def safe_build(ctx, i, part):
         return None
 
 
+def add_repeated_args(rng, d):
+    """nets whose argument tuple names ONE wire several times, adjacent and NON-adjacent (concat(a, b, a), a mux
+    whose select is also a data input, a write port whose address wire is also its enable): legal API-built logic in
+    which the per-wire sink bookkeeping of Block.net_connections / Block.__iter__ must list the net once"""
+    srcs = sorted((w for w in list(d.inputs) + list(d.regs)), key=lambda w: w.name)
+    if not srcs:
+        return
+    a, b, c = rng.choice(srcs), rng.choice(srcs), rng.choice(srcs)
+    shapes = [lambda: pyrtl.concat(a, b, a), lambda: pyrtl.concat(a, a, b, a), lambda: pyrtl.concat(b, a, c, a, b),
+              lambda: pyrtl.concat(a[0], b, a[0])]
+    k = 0
+    for mk in rng.sample(shapes, rng.randint(1, 3)):
+        e = mk()
+        o = pyrtl.Output(len(e), 'rep%d_%d' % (len(d.outputs), k))
+        o <<= e
+        d.outputs.append(o)
+        d.ops.append('repeated-args')
+        k += 1
+    if rng.random() < 0.6:
+        s1 = a[0]
+        x1 = b[len(b) - 1]
+        e = pyrtl.select(s1, x1, s1)            # 'x' net with args (s1, s1, x1) / (s1, x1, s1)
+        e2 = pyrtl.select(s1, s1, x1)
+        o = pyrtl.Output(2, 'repx%d' % len(d.outputs))
+        o <<= pyrtl.concat(e, e2)
+        d.outputs.append(o)
+        d.ops.append('repeated-args')
+    if rng.random() < 0.5:
+        m = pyrtl.MemBlock(bitwidth=len(b), addrwidth=1, name='repmem%d' % len(d.outputs), asynchronous=True)
+        e1 = a[0]
+        m[e1] <<= pyrtl.MemBlock.EnabledWrite(b, enable=e1)      # '@' net with args (e1, b, e1)
+        o = pyrtl.Output(len(b), 'repm%d' % len(d.outputs))
+        o <<= m[e1]
+        d.outputs.append(o)
+        d.ops.append('repeated-args')
+
+
 def build(ctx, i):
     """i % 5 == 2: small design with a synchronous memory (sanity_check_memory_sync has something to walk);
     i % 5 == 4: built in two phases with another design started in between (reset_working_block, a scratch
@@ -559,6 +624,8 @@ def build(ctx, i):
         d.regs = sorted(d.block.wirevector_subset(pyrtl.Register), key=lambda w: w.name)
         return d
     d = gen_designs.make_design(rng, wide_prob=0.1)
+    if i % 2 == 0:
+        add_repeated_args(ctx.sub_rng('repeated-args', i), d)
     if i % 5 == 3:
         # the public name setter is part of building a design: wires renamed to a fresh name, renamed back,
         # and assigned the name they already have (what output_to_firrtl does to every Const)
@@ -621,6 +688,11 @@ def run(ctx):
                                {'seed': ctx.seed, 'design': i})
         logic = list(block.logic)
         index = {id(n): k for k, n in enumerate(logic)}
+        bad_conn = net_connections_wrong(block)
+        ctx.count('net_connections_checked', bad_conn is None)
+        if bad_conn:
+            ctx.model_mismatch('Block.net_connections is not the sink/source relation Netlist/Iter.v assumes: ' + bad_conn,
+                               {'seed': ctx.seed, 'design': i})
         dump = NameDump(block, logic)
         nl = dump.coq()
         if gen_ok:
@@ -630,10 +702,19 @@ def run(ctx):
             exprs.append('memsync_case %s %s' % (nl, nlx.zlist(sync_ids(block))))
             meta.append(('memsync', i, 'none', real_memsync(block), {'seed': ctx.seed, 'design': i}))
         for s in range(nseeds):
-            if s == 0:
-                order, choices = list(block), None   # CPython's own set order
-            else:
-                order, choices = with_iter_seed(block, 1000 * ctx.seed + s)
+            try:
+                if s == 0:
+                    order, choices = list(block), None   # CPython's own set order
+                else:
+                    order, choices = with_iter_seed(block, 1000 * ctx.seed + s)
+            except Exception as e:
+                ctx.spec_violation('api-built-iter-raises',
+                                   'iterating an API-built design that sanity_check accepts raised under worklist '
+                                   'schedule %s: %r' % (s, e),
+                                   {'seed': ctx.seed, 'design': i, 'schedule_seed': s,
+                                    'hook': 'PYRTL_VERIF_ITER_SEED=%d' % (1000 * ctx.seed + s) if s else 'none (CPython set order)',
+                                    'nets': sorted(str(n) for n in logic)[:60]})
+                continue
             real_idx = [index[id(n)] for n in order]
             # the real order, checked by the Coq definition of dependency order
             perm = '[%s]' % '; '.join('mkNet_at %d' % k for k in real_idx)
